@@ -44,6 +44,15 @@ var verifDerivedTables = map[string]bool{
 	"free-virtual-ips": true, "session_checks": true, "usage": true, "peering-secret-uuids": true,
 }
 
+func verifDerivedIndexKey(k string) bool {
+	for t := range verifDerivedTables {
+		if k == t || strings.HasPrefix(k, t+".") {
+			return true
+		}
+	}
+	return strings.HasPrefix(k, "kind_service_names")
+}
+
 type verifSink struct {
 	bytes.Buffer
 	cancelled bool
@@ -226,6 +235,11 @@ func verifC02Compare(rp *verifC02Reporter, when string, x, y verifC02Point) {
 		sig := d.Signature()
 		if d.Table == "index" { // the row identity IS the signature for the index table
 			sig = "table=index/" + strings.Replace(d.Key, "Key=", "key=", 1)
+			if verifDerivedIndexKey(strings.TrimPrefix(d.Key, "Key=")) {
+				// the index row of a derived table: judged through the indexes the queries report (L2)
+				c.Labelf("L4-diagnostic:%s", sig)
+				continue
+			}
 		}
 		if seen[sig] {
 			continue
